@@ -336,7 +336,7 @@ class Mon:
                     if r == -12:
                         self.stats["enomem"] += 1
             else:
-                if h["owed"] and r != -11 and r > -12:
+                if h["owed"] and r not in (-11, -106, -89, -22):
                     self.bad("try-send-overtakes", f"h{i} try_send returned {r} with {len(h['owed'])} requests queued")
                 if r >= 0:
                     if r != sum(lens):
